@@ -145,6 +145,19 @@ func (p *Placement) Step(it *Interp, st *StepInfo) {
 				p.refundedHash[e.TxHash] = true
 			}
 		}
+		// the transfers of a batch whose execution was observed in this step were paid out externally: none of them may still
+		// sit in the pool or in a batch (from where a timeout would hand it back and a refund pay it a second time)
+		for _, b := range pre.Batches {
+			if !executed[b.BatchNonce] {
+				continue
+			}
+			for _, tx := range b.Transactions {
+				if place, still := now[tx.Id]; still {
+					it.Fail("C04", "executed-transfer-still-held", "%s: batch %d was observed executed, its transfer %d is still held in %s", ch, b.BatchNonce, tx.Id, place)
+					return
+				}
+			}
+		}
 		// appearances and moves
 		ids := make([]uint64, 0, len(now))
 		for id := range now {
